@@ -4,4 +4,5 @@ pub mod c06;
 pub mod c10;
 pub mod c12;
 pub mod c13;
+pub mod c16;
 pub mod c19;
